@@ -130,7 +130,7 @@ def validate_traces(ck, trace_path, classes, runs):
     return validated
 
 
-def _run(pid, tier, classes, families):
+def _run(pid, tier, classes, families, extra=None):
     ck = Check(pid, tier, "model_checking")
     q = tier == "quick"
     # 1. exhaustive model check
@@ -192,6 +192,8 @@ def _run(pid, tier, classes, families):
             os.unlink(p)
         except OSError:
             pass
+    if extra:
+        extra(ck, tier)
     return ck.finish()
 
 
@@ -203,5 +205,23 @@ def c07(tier):
     return _run("C07", tier, C07, ("nofault", "stale"))
 
 
+def _stoprace(ck, tier):
+    """StopRace.tla: TLC on the repaired and the as-is model, then the schedule on the real stack."""
+    r = tlc("server", "StopRace", "StopRace.cfg", workers=2, timeout=300)
+    if not r.ok:
+        raise vlib.Inconclusive("StopRace violates %s:\n%s" % (r.violation, r.out[-2000:]))
+    ra = tlc("server", "StopRace", "StopRace_asis.cfg", workers=2, timeout=300)
+    if ra.violation is None:
+        raise vlib.Inconclusive("StopRace as-is: TLC found no violation (vacuity guard failed)")
+    ck.add_cov(states=r.distinct, transitions=r.generated)
+    ck.cov["tlc_runs"] += [{"cfg": "StopRace.cfg", **r.summary()}, {"cfg": "StopRace_asis.cfg", "expected_violation": ra.violation}]
+    doc = harness(["stoprace", "-reps", "2" if tier == "quick" else "8"], timeout=900)
+    hv = doc.get("violations") or []
+    if any(v["tag"] == "harness" for v in hv):
+        raise vlib.Inconclusive("stoprace harness problem: %s" % hv[0])
+    ck.take(doc, prefix="stoprace_")
+    ck.add_cov(traces_validated_against_impl=int(doc.get("evaluations", 0)))
+
+
 def c11(tier):
-    return _run("C11", tier, C11, ("fault", "fwd"))
+    return _run("C11", tier, C11, ("fault", "fwd"), extra=_stoprace)
